@@ -262,7 +262,7 @@ def run(ctx, progs):
                    f"{len(xfers)} call(s) receive the guest buffer: {[x[2].split('::')[-1] for x in xfers]}; "
                    + ("no path performs two of them" if not twice else
                       f"`{twice[0][0][2].split('::')[-1]}` and `{twice[0][1][2].split('::')[-1]}` lie on one path: one guest buffer is moved in two transfers (an aligned access may be torn)"))
-        ctx.floor("R6.9.single_shot_methods", n9, 8, MIN=8)
+        ctx.floor("R6.9.single_shot_methods", n9, 8, MIN=5)
     ctx.not_decided = ["what a concurrent observer sees (schedules)", "codegen: one volatile access => one instruction"]
     return ctx.finish(
         "other",
